@@ -200,10 +200,21 @@ func TestC17(t *testing.T) {
 			}
 			return k
 		}
+		// two links in one header: the votes for checkpoint 8 are split over the links 4->8 (s2) and 0->8 (s2b);
+		// each link counts on its own, and only the direct link 4->8 can finalize checkpoint 4
+		twoLinks := inHeader && rng.Chance(1, 2)
+		s2b := 0
+		if twoLinks {
+			all := s2
+			s2 = all & rng.Intn(1<<uint(n))
+			s2b = all &^ s2
+			c.Count("headers_with_two_links", 1)
+		}
 		want4 := 3*cnt(s1) > 2*n
-		want8 := want4 && 3*cnt(s2) > 2*n
-		c.Distinct("n=%d|s1=%d|s2=%d|hdr=%v", n, cnt(s1), cnt(s2), inHeader)
-		c.Journal(map[string]interface{}{"n": n, "s1": s1, "s2": s2, "in_header": inHeader})
+		want8via4 := want4 && 3*cnt(s2) > 2*n
+		want8 := want8via4 || 3*cnt(s2b) > 2*n
+		c.Distinct("n=%d|s1=%d|s2=%d|s2b=%d|hdr=%v", n, cnt(s1), cnt(s2), cnt(s2b), inHeader)
+		c.Journal(map[string]interface{}{"n": n, "s1": s1, "s2": s2, "s2b": s2b, "in_header": inHeader})
 		rn, err := newRunner(c, net, g, tr, fmt.Sprintf("%s/s%d", base, c.Index))
 		if err != nil {
 			c.Inconclusive("node: %v", err)
@@ -257,7 +268,13 @@ func TestC17(t *testing.T) {
 				}
 			}
 			if i == 7 {
-				if inHeader {
+				if twoLinks {
+					a, b := link(cp4, cp8, s2, rng.Chance(1, 2)), link(tr.Root, cp8, s2b, rng.Chance(1, 2))
+					if rng.Chance(1, 2) {
+						a, b = b, a
+					}
+					hdr[cp8.Hash] = append(a, b...)
+				} else if inHeader {
 					hdr[cp8.Hash] = link(cp4, cp8, s2, true)
 				} else {
 					deliverVotes(cp4, cp8, s2)
@@ -269,7 +286,7 @@ func TestC17(t *testing.T) {
 		expect := func(ob *obs, phase string) bool {
 			st4, _ := statusOf(ob, cp4.Hash)
 			st8, _ := statusOf(ob, cp8.Hash)
-			ctx := map[string]interface{}{"n": n, "signers_0->4": cnt(s1), "signers_4->8": cnt(s2), "in_header": inHeader, "phase": phase, "status4": st4, "status8": st8, "trail": rn.trail}
+			ctx := map[string]interface{}{"n": n, "signers_0->4": cnt(s1), "signers_4->8": cnt(s2), "signers_0->8": cnt(s2b), "in_header": inHeader, "two_links": twoLinks, "phase": phase, "status4": st4, "status8": st8, "trail": rn.trail}
 			if st4 >= state.Justified && !want4 {
 				c.Violation(fmt.Sprintf("justified-without-supermajority:%s:hdr=%v", phase, inHeader), "checkpoint 4 is justified with at most two thirds of the validators' valid votes", ctx)
 				return false
@@ -278,7 +295,7 @@ func TestC17(t *testing.T) {
 				c.Violation(fmt.Sprintf("justified-without-supermajority-or-justified-source:%s:hdr=%v", phase, inHeader), "checkpoint 8 is justified although its source is unjustified or the valid votes are at most two thirds", ctx)
 				return false
 			}
-			if st4 == state.Finalized && !want8 {
+			if st4 == state.Finalized && !want8via4 {
 				c.Violation(fmt.Sprintf("finalized-without-justified-child:%s:hdr=%v", phase, inHeader), "checkpoint 4 is finalized although its direct child is not justified from it", ctx)
 				return false
 			}
@@ -288,7 +305,7 @@ func TestC17(t *testing.T) {
 			if want4 && st4 < state.Justified {
 				c.Count("supermajority_not_justified(liveness only)", 1)
 			}
-			if want8 && st4 == state.Finalized {
+			if want8via4 && st4 == state.Finalized {
 				c.Count("finalized_as_expected", 1)
 			}
 			return true
@@ -332,10 +349,16 @@ func TestC17(t *testing.T) {
 		}
 		// one more valid vote by a validator that has not voted for cp8 (if any): may complete a supermajority only with valid votes
 		for i := 0; i < n; i++ {
-			if s2>>uint(i)&1 == 0 {
-				rn.nd.Chain.ProcessBlockVerification(net.VoteMsg(vals[i], cp4.Hash, cp8.Hash))
-				s2 |= 1 << uint(i)
-				want8 = want4 && 3*cnt(s2) > 2*n
+			if (s2|s2b)>>uint(i)&1 == 0 {
+				if twoLinks && rng.Chance(1, 2) {
+					rn.nd.Chain.ProcessBlockVerification(net.VoteMsg(vals[i], tr.Root.Hash, cp8.Hash))
+					s2b |= 1 << uint(i)
+				} else {
+					rn.nd.Chain.ProcessBlockVerification(net.VoteMsg(vals[i], cp4.Hash, cp8.Hash))
+					s2 |= 1 << uint(i)
+				}
+				want8via4 = want4 && 3*cnt(s2) > 2*n
+				want8 = want8via4 || 3*cnt(s2b) > 2*n
 				break
 			}
 		}
@@ -398,6 +421,7 @@ func TestC17(t *testing.T) {
 	r.Floor("supermajority_justified", 10)
 	r.Floor("restarts", 20)
 	r.Floor("blocks_with_forged_header_links", 10)
+	r.Floor("headers_with_two_links", 5)
 }
 
 func origRunWithHeaders(steps []chainkit.Step, hdr map[bc.Hash]types.SupLinks) []chainkit.Step {
